@@ -1,4 +1,5 @@
 import MlModel.Lemmas.Rebatch
+import MlModel.Lemmas.RebatchGen
 /-!
 # C19 — re-batching conserves rows, order and column alignment
 
@@ -19,6 +20,14 @@ both ways of giving the column count (`numColumns = nc` explicit, `numColumns = 
 re-batching of `TreeFn._iterate` (model `treeFn`) around row-preserving / row-count-changing functions.  Not stated as theorems (covered by the correspondence only):
 the container kind of the emitted columns, and the `TypeError` branch for unsupported containers.
 Known finding F-C19-assign (`Assign` + `batch_size`) is outside `_iterate`: see `Witness/C19.lean`.
+
+Round 10: `C19_pad_only_extends_last`, `C19_pad_rows_unchanged` (padding never touches a real row);
+`TreeFn._iterate` as a chain of lazy iterators with failing calls and `ignore_error`
+(`Model/RebatchGen.lean`: `treeFnGen`, `treeFnGenS` for functions with state): `C19_treefn_gen_total`,
+`C19_treefn_skip`, `C19_treefn_skip_carry`, `C19_treefn_skip_rows`, `C19_treefn_fail_noskip`,
+`C19_treefn_gen_stateless`, `C19_treefn_skip_stateful`, `C19_treefn_skip_carry_stateful`;
+`Properties/C19Pipe.lean`: `C19_skip_agrees_with_C12`; contrast witness
+`Witness/C19.lean: C19_skip_after_rebatch_witness`.
 -/
 namespace MlModel.C19
 open MlModel.Rebatch
@@ -304,6 +313,254 @@ theorem C19_treefn_flatmap {β : Type} [Inhabited α] [Inhabited β] {fb b nin :
     simp [padding]
   · rw [C19_count hb hnout (Or.inl rfl) none hwf2, htot2, hrows]
 
+/-! ## Padding never touches a real row (round 10)
+
+Elements are abstract (`α` is any type: floats, strings, `None`, vectors, mixed Python objects, …) and
+the model never computes with them, so "the value AND type of every real row is unchanged" is literal
+equality of elements of `α`.  (What the model cannot say: that numpy *stores* the pad value in the
+column's dtype — the correspondence reads a padding element of an array column that way — and that a
+column keeps its dtype; both are compared element by element and batch by batch by the check.) -/
+
+/-- **Padding only extends the last batch.**  The padded run is the un-padded run in which every
+column of the final batch got copies of the pad value appended (`padT`: `rows ++ replicate (t - len) p`,
+container kind untouched); all other batches are identical. -/
+theorem C19_pad_only_extends_last {t nc numColumns : Nat} (ht : 0 < t) (hnc : 0 < nc)
+    (hcols : numColumns = nc ∨ numColumns = 0) (p : α) {bs : List (Batch α)} (hwf : WF nc bs) :
+    run t numColumns (some p) bs
+      = ⟨mapLast (padT · p t) (run t numColumns none bs).out, none⟩ :=
+  run_pad_eq ht hnc hcols p hwf
+
+/-- **Padding only appends: every real row is unchanged.**  With `pad = p`, for every column `c`:
+the first `totalRows bs` emitted elements are exactly the input elements, in order; everything behind
+them is the pad value (`(t - n % t) % t` copies); and, position by position, element `i` of emitted
+batch `j` is the input element with the same global index if that index is below the number of input
+rows, and `p` otherwise. -/
+theorem C19_pad_rows_unchanged {t nc numColumns : Nat} (ht : 0 < t) (hnc : 0 < nc)
+    (hcols : numColumns = nc ∨ numColumns = 0) (p : α) {bs : List (Batch α)}
+    (hwf : WF nc bs) {c : Nat} (hc : c < nc) :
+    (colConcat (run t numColumns (some p) bs).out c).take (totalRows bs) = colConcat bs c ∧
+    (colConcat (run t numColumns (some p) bs).out c).drop (totalRows bs)
+      = List.replicate ((t - totalRows bs % t) % t) p ∧
+    ∀ (j i : Nat) (b : Batch α), (run t numColumns (some p) bs).out[j]? = some b → i < nrows b →
+      (totalRows ((run t numColumns (some p) bs).out.take j) + i < totalRows bs →
+        (colRows b c)[i]? = (colConcat bs c)[totalRows ((run t numColumns (some p) bs).out.take j) + i]?) ∧
+      (totalRows bs ≤ totalRows ((run t numColumns (some p) bs).out.take j) + i →
+        (colRows b c)[i]? = some p) := by
+  have hcons := C19_conserve ht hnc hcols (some p) hwf hc
+  have hlen := length_colConcat hwf hc
+  refine ⟨?_, ?_, ?_⟩
+  · rw [hcons, List.take_left' hlen]
+  · rw [hcons, List.drop_left' hlen]; simp [padding]
+  · intro j i b hj hi
+    have hal := C19_aligned ht hnc hcols (some p) hwf hc j i b hj hi
+    have hrect := C19_rect ht hnc hcols (some p) hwf b (List.mem_of_getElem? hj)
+    have hsome : i < (colRows b c).length := by rw [hrect.colRows_len hc]; exact hi
+    generalize totalRows ((run t numColumns (some p) bs).out.take j) + i = g at *
+    constructor
+    · intro hg
+      rw [hal, List.getElem?_append_left (by rw [hlen]; exact hg)]
+    · intro hg
+      rw [List.getElem?_append_right (by rw [hlen]; exact hg)] at hal
+      simp only [padding, List.getElem?_replicate] at hal
+      split at hal
+      · exact hal
+      · rw [List.getElem?_eq_getElem hsome] at hal; cases hal
+
+/-! ## `TreeFn._iterate` with failing calls (round 10)
+
+`treeFnGen skip fb b nin nout G bs` (`Model/RebatchGen.lean`) is the chain of lazy iterators of
+`TreeFn._iterate(…, ignore_error=skip)` for a batch function `G` that may raise: first re-batcher →
+guarded calls (`map_ignore_error` when `skip`) → second re-batcher.  Error skipping through
+re-batching operators is property C12's statement (`C12_batched_failing_groups`,
+`C12_batched_none_lost_after` on the pipeline model); what C19 adds is what happens to the **rows**:
+those returned by successful calls are conserved — also the ones the second re-batcher is carrying
+over when a later call fails. -/
+
+/-- The iterator-level model extends `treeFn`: for a function that never raises it is `treeFn`, on
+every well-formed stream, with and without skipping. -/
+theorem C19_treefn_gen_total {β : Type} (skip : Bool) {fb b nin nout : Nat} (hnin : 0 < nin)
+    (G : Batch α → Batch β) {bs : List (Batch α)} (hwf : WF nin bs) :
+    treeFnGen skip fb b nin nout (fun x => .ok (G x)) bs = treeFn fb b nin nout G bs := by
+  have hp := pulls_of_wf (fb := fb) hnin hwf
+  have herr : (run fb nin none bs).err = none := by
+    have := hp; simp only [Run.pulls] at this
+    cases h : (run fb nin none bs).err with
+    | none => rfl
+    | some e => rw [h] at this; simp at this
+  simp only [treeFnGen, treeFn, hp, herr, callMap_items_total, ignoreErr_items, ite_self, runEv_items]
+
+/-- **Skipping on: the output is the re-batching of the results of the successful calls.**  For ANY
+batch function (no condition on which calls fail, on what they return, or on state), every
+`fn_batch_size`, every `batch_size` (also 0): what `TreeFn._iterate(…, ignore_error=True)` emits on a
+well-formed stream is exactly `rebatched_args` run over the results of the calls that did not raise —
+the groups (`run fb …`) in order, each failing group left out, nothing else disturbed.  Every C19
+theorem about `run` (conservation, order, alignment, sizes, count) therefore applies to those results:
+in particular rows the second re-batcher was carrying when a call failed are emitted. -/
+theorem C19_treefn_skip {β : Type} {fb b nin nout : Nat} (hnin : 0 < nin)
+    (G : Batch α → Except ErrKind (Batch β)) {bs : List (Batch α)} (hwf : WF nin bs) :
+    treeFnGen true fb b nin nout G bs = run b nout none (okCalls G (run fb nin none bs).out) := by
+  simp only [treeFnGen, pulls_of_wf hnin hwf, if_true, ignoreErr_callMap_items, runEv_items]
+
+/-- **Rows carried across a failing call are not lost.**  If the groups the function is called with are
+`pre ++ x :: post` and the call on `x` raises, then with skipping on the output is what it would be had
+`x` never been in the stream: the re-batching of (results of `pre`) ++ (results of `post`).  When the
+results are rectangular (`nout` columns): what had been yielded before the failing call stays yielded
+(`online … (okCalls G pre)` is a prefix), and column by column the emitted rows are ALL rows returned by
+the successful calls before the failure — including the `totalRows … % b` rows sitting in the carry
+buffer at the failure — followed by all rows returned by the successful calls after it. -/
+theorem C19_treefn_skip_carry {β : Type} {fb b nin nout : Nat} (hb : 0 < b) (hnin : 0 < nin)
+    (hnout : 0 < nout) (G : Batch α → Except ErrKind (Batch β)) {bs : List (Batch α)}
+    (hwf : WF nin bs) {pre post : List (Batch α)} {x : Batch α} {e : ErrKind}
+    (hgroups : (run fb nin none bs).out = pre ++ x :: post) (hx : G x = .error e)
+    (hG : ∀ y o, G y = .ok o → Rect nout (nrows o) o) :
+    treeFnGen true fb b nin nout G bs = run b nout none (okCalls G pre ++ okCalls G post) ∧
+    (treeFnGen true fb b nin nout G bs).err = none ∧
+    online b nout none (okCalls G pre) <+: (treeFnGen true fb b nin nout G bs).out ∧
+    ∀ c, c < nout → colConcat (treeFnGen true fb b nin nout G bs).out c
+        = colConcat (okCalls G pre) c ++ colConcat (okCalls G post) c := by
+  have hwfok : ∀ xs : List (Batch α), WF nout (okCalls G xs) := by
+    intro xs o ho
+    simp only [okCalls, List.mem_filterMap] at ho
+    obtain ⟨y, -, hy⟩ := ho
+    cases hGy : G y with
+    | ok o' => rw [hGy] at hy; cases hy; exact hG y _ hGy
+    | error e' => rw [hGy] at hy; cases hy
+  have heq : treeFnGen true fb b nin nout G bs = run b nout none (okCalls G pre ++ okCalls G post) := by
+    rw [C19_treefn_skip hnin G hwf, hgroups, okCalls_append, okCalls_cons_error G hx]
+  have hwfall : WF nout (okCalls G pre ++ okCalls G post) := WF.append.mpr ⟨hwfok pre, hwfok post⟩
+  refine ⟨heq, ?_, ?_, ?_⟩
+  · rw [heq]; exact C19_no_error hb hnout (Or.inl rfl) none hwfall
+  · rw [heq]; exact (C19_online hb hnout (Or.inl rfl) none hwfall).1
+  · intro c hc
+    rw [heq, C19_conserve hb hnout (Or.inl rfl) none hwfall hc, colConcat_append]
+    simp [padding]
+
+/-- **Skipping on, row-wise reading.**  For a batch function that raises on the groups satisfying
+`bad` and otherwise is a row-wise flat-map `g` (filters, expansions, row-preserving maps): never
+raises; emits, column by column, `g` of the rows of the groups that did not fail, in order —
+regrouped into batches of exactly `b` rows (the last `1..b`), `⌈N/b⌉` batches. -/
+theorem C19_treefn_skip_rows {β : Type} [Inhabited α] [Inhabited β] {fb b nin : Nat} (hb : 0 < b)
+    (hnin : 0 < nin) (bad : Batch α → Bool) (g : List α → List (List β)) {kinds : List Kind}
+    (hk : ∀ k ∈ kinds, k ≠ .other) (hnout : 0 < kinds.length) {bs : List (Batch α)}
+    (hwf : WF nin bs) :
+    (treeFnGen true fb b nin kinds.length (failingOn bad g kinds) bs).err = none ∧
+    (∀ c, c < kinds.length →
+      colConcat (treeFnGen true fb b nin kinds.length (failingOn bad g kinds) bs).out c
+        = (((((run fb nin none bs).out.filter fun x => !bad x).flatMap rowsOf).flatMap g).map
+            fun row => row.getD c default)) ∧
+    WF kinds.length (treeFnGen true fb b nin kinds.length (failingOn bad g kinds) bs).out ∧
+    (∀ j b', (treeFnGen true fb b nin kinds.length (failingOn bad g kinds) bs).out[j]? = some b' →
+      j + 1 < (treeFnGen true fb b nin kinds.length (failingOn bad g kinds) bs).out.length →
+      nrows b' = b) ∧
+    (∀ b', (treeFnGen true fb b nin kinds.length (failingOn bad g kinds) bs).out.getLast? = some b' →
+      1 ≤ nrows b' ∧ nrows b' ≤ b) ∧
+    (treeFnGen true fb b nin kinds.length (failingOn bad g kinds) bs).out.length
+      = ((((((run fb nin none bs).out.filter fun x => !bad x).flatMap rowsOf).flatMap g).length) + b - 1) / b := by
+  rw [C19_treefn_skip hnin _ hwf, okCalls_failingOn]
+  generalize (run fb nin none bs).out.filter (fun x => !bad x) = xs
+  have hwf2 := wf_flatMapRows g hk hnout xs
+  have htot2 := totalRows_flatMapRows g hk hnout xs
+  obtain ⟨s1, s2, _⟩ := C19_sizes hb hnout (Or.inl rfl) none hwf2
+  refine ⟨C19_no_error hb hnout (Or.inl rfl) none hwf2, ?_, C19_rect hb hnout (Or.inl rfl) none hwf2,
+    s1, fun b' h => ⟨(s2 b' h).1, (s2 b' h).2.1⟩, ?_⟩
+  · intro c hc
+    rw [C19_conserve hb hnout (Or.inl rfl) none hwf2 hc, colConcat_flatMapRows g xs hc]
+    simp [padding]
+  · rw [C19_count hb hnout (Or.inl rfl) none hwf2, htot2]
+
+/-- **Skipping off: the first failing call ends the run.**  If the groups are `pre ++ x :: post`, the
+calls on `pre` succeed (with rectangular results `F y`) and the call on `x` raises, then
+`TreeFn._iterate` raises `ValueError` (`_maybe_call_fn` wraps whatever the function raised) having
+emitted exactly the complete batches of the results of `pre` (`online`: nothing is retracted, the rows
+in the carry buffer are not delivered), whatever `post` is. -/
+theorem C19_treefn_fail_noskip {β : Type} {fb b nin nout : Nat} (hb : 0 < b) (hnin : 0 < nin)
+    (hnout : 0 < nout) (G : Batch α → Except ErrKind (Batch β)) (F : Batch α → Batch β)
+    {bs : List (Batch α)} (hwf : WF nin bs) {pre post : List (Batch α)} {x : Batch α} {e : ErrKind}
+    (hgroups : (run fb nin none bs).out = pre ++ x :: post)
+    (hpre : ∀ y ∈ pre, G y = .ok (F y)) (hx : G x = .error e) (hF : WF nout (pre.map F)) :
+    treeFnGen false fb b nin nout G bs = ⟨online b nout none (pre.map F), some .value⟩ := by
+  have hb0 : (b == 0) = false := by simp; omega
+  have hn0 : (nout != 0) = true := by simp; omega
+  simp only [treeFnGen, pulls_of_wf hnin hwf, hgroups, List.map_append, List.map_cons,
+    Bool.false_eq_true, if_false, callMap_prefix_fail G F pre x e _ hpre hx, runEv, hb0, hn0, if_true,
+    runEvFrom_items_raise, List.nil_append]
+  obtain ⟨herr, -⟩ := feed_spec hb hnout none (pre.map F) _ (Inv.init hb nout) hF
+  rw [herr, online_eq hb hnout (Or.inl rfl) none hF]
+
+/-! ### functions with private state
+
+The user function is any Python callable: it may keep state between calls (a counter, a cache), so the
+result of a call may depend on the calls before it — including the failing ones (`treeFnGenS`, state
+`σ` threaded through the calls in order).  The statements above are the special case `σ = Unit`. -/
+
+/-- a function that ignores its state: the stateful chain is the stateless one -/
+theorem C19_treefn_gen_stateless {β : Type} (skip : Bool) (fb b nin nout : Nat)
+    (G : Batch α → Except ErrKind (Batch β)) (bs : List (Batch α)) :
+    treeFnGenS skip fb b nin nout (fun (u : Unit) x => (G x, u)) () bs
+      = treeFnGen skip fb b nin nout G bs := by
+  simp only [treeFnGenS, treeFnGen, callMapS_const]
+
+/-- `C19_treefn_skip` for ANY function with ANY state: with skipping on the output is the re-batching
+of the results of the calls that did not raise (the state runs through all calls, failing ones too). -/
+theorem C19_treefn_skip_stateful {β σ : Type} {fb b nin nout : Nat} (hnin : 0 < nin)
+    (G : σ → Batch α → Except ErrKind (Batch β) × σ) (s0 : σ) {bs : List (Batch α)}
+    (hwf : WF nin bs) :
+    treeFnGenS true fb b nin nout G s0 bs
+      = run b nout none (okCallsS G s0 (run fb nin none bs).out) := by
+  simp only [treeFnGenS, pulls_of_wf hnin hwf, if_true, ignoreErr_callMapS_items, runEv_items]
+
+/-- `C19_treefn_skip_carry` for ANY function with ANY state: the groups are `pre ++ x :: post`, the
+call on `x` (made in the state the calls on `pre` left) raises and leaves state `s'`.  Then the output
+is the re-batching of (results of `pre`) ++ (results of `post` computed from `s'`): nothing yielded
+before is retracted, and every row returned by a successful call before the failure — the carried
+ones included — is emitted, followed by every row of the successful calls after it. -/
+theorem C19_treefn_skip_carry_stateful {β σ : Type} {fb b nin nout : Nat} (hb : 0 < b)
+    (hnin : 0 < nin) (hnout : 0 < nout) (G : σ → Batch α → Except ErrKind (Batch β) × σ) (s0 : σ)
+    {bs : List (Batch α)} (hwf : WF nin bs) {pre post : List (Batch α)} {x : Batch α} {e : ErrKind}
+    (hgroups : (run fb nin none bs).out = pre ++ x :: post)
+    (hx : (G (stateAfter G s0 pre) x).1 = .error e)
+    (hG : ∀ s y o, (G s y).1 = .ok o → Rect nout (nrows o) o) :
+    treeFnGenS true fb b nin nout G s0 bs
+      = run b nout none
+          (okCallsS G s0 pre ++ okCallsS G (G (stateAfter G s0 pre) x).2 post) ∧
+    (treeFnGenS true fb b nin nout G s0 bs).err = none ∧
+    online b nout none (okCallsS G s0 pre) <+: (treeFnGenS true fb b nin nout G s0 bs).out ∧
+    ∀ c, c < nout → colConcat (treeFnGenS true fb b nin nout G s0 bs).out c
+        = colConcat (okCallsS G s0 pre) c
+            ++ colConcat (okCallsS G (G (stateAfter G s0 pre) x).2 post) c := by
+  have hwfok : ∀ (xs : List (Batch α)) (s : σ), WF nout (okCallsS G s xs) := by
+    intro xs
+    induction xs with
+    | nil => intro s o ho; simp [okCallsS] at ho
+    | cons y xs ih =>
+      intro s
+      simp only [okCallsS]
+      rcases hGy : G s y with ⟨r, s'⟩
+      cases r with
+      | ok o =>
+        simp only
+        rw [WF.cons]
+        exact ⟨hG s y o (by rw [hGy]), ih s'⟩
+      | error e' => exact ih s'
+  have heq : treeFnGenS true fb b nin nout G s0 bs
+      = run b nout none (okCallsS G s0 pre ++ okCallsS G (G (stateAfter G s0 pre) x).2 post) := by
+    rw [C19_treefn_skip_stateful hnin G s0 hwf, hgroups, okCallsS_append]
+    congr 2
+    simp only [okCallsS]
+    rcases hGx : G (stateAfter G s0 pre) x with ⟨r, s'⟩
+    rw [hGx] at hx
+    simp only at hx
+    subst hx
+    rfl
+  have hwfall := WF.append.mpr ⟨hwfok pre s0, hwfok post (G (stateAfter G s0 pre) x).2⟩
+  refine ⟨heq, ?_, ?_, ?_⟩
+  · rw [heq]; exact C19_no_error hb hnout (Or.inl rfl) none hwfall
+  · rw [heq]; exact (C19_online hb hnout (Or.inl rfl) none hwfall).1
+  · intro c hc
+    rw [heq, C19_conserve hb hnout (Or.inl rfl) none hwfall hc, colConcat_append]
+    simp [padding]
+
+
 /-! ## Non-vacuity and sanity tests (concrete instances, by `decide`; `+kernel` because `sliced`
 is defined by well-founded recursion) -/
 
@@ -347,5 +604,36 @@ example : treeFn 2 2 2 1 (flatMapRows (fun r => if r.headD 0 % 2 = 0 then [[r.he
 -- TreeFn: fn_batch_size 4, batch_size 3, row-wise sum of the two columns
 example : treeFn 4 3 2 1 (mapRows sampleSum [.list]) sampleStream =
     ⟨[[⟨.list, [10, 12, 14]⟩], [⟨.list, [16, 18, 20]⟩]], none⟩ := by decide +kernel
+
+-- round 10 -------------------------------------------------------------------------------------
+-- padding: only the final batch is extended, the real rows stay (target 4, 6 rows, pad 99)
+example : run 4 2 (some 99) sampleStream
+    = ⟨mapLast (padT · 99 4) (run 4 2 none sampleStream).out, none⟩ := by decide +kernel
+example : (colConcat (run 4 2 (some 99) sampleStream).out 1).take 6 = [10, 11, 12, 13, 14, 15] ∧
+    (colConcat (run 4 2 (some 99) sampleStream).out 1).drop 6 = [99, 99] := by decide +kernel
+-- hypotheses of `C19_treefn_skip_carry` / `C19_treefn_fail_noskip`: fn_batch_size 2 cuts the sample into the
+-- groups [0,1] [2,3] [4,5]; the call on [2,3] raises; batch_size 3: rows 0, 1 sit in the carry buffer then
+example : (run 2 2 none sampleStream).out
+      = [[⟨.list, [0, 1]⟩, ⟨.array, [10, 11]⟩]] ++ [⟨.list, [2, 3]⟩, ⟨.array, [12, 13]⟩] ::
+        [[⟨.list, [4, 5]⟩, ⟨.array, [14, 15]⟩]] ∧
+    raised (sampleFailing [⟨.list, [2, 3]⟩, ⟨.array, [12, 13]⟩]) = true ∧
+    raised (sampleFailing [⟨.list, [0, 1]⟩, ⟨.array, [10, 11]⟩]) = false := by decide +kernel
+-- ... skipping on: the carried rows 0, 1 come out together with row 4, then row 5
+example : treeFnGen true 2 3 2 2 sampleFailing sampleStream =
+    ⟨[[⟨.list, [0, 1, 4]⟩, ⟨.array, [10, 11, 14]⟩], [⟨.list, [5]⟩, ⟨.array, [15]⟩]], none⟩ := by
+  decide +kernel
+-- ... skipping off: ValueError, nothing had been completed (rows 0, 1 are withheld)
+example : treeFnGen false 2 3 2 2 sampleFailing sampleStream = ⟨[], some .value⟩ := by decide +kernel
+-- ... skipping off with batch_size 1: rows 0, 1 were delivered before the error
+example : treeFnGen false 2 1 2 2 sampleFailing sampleStream =
+    ⟨[[⟨.list, [0]⟩, ⟨.array, [10]⟩], [⟨.list, [1]⟩, ⟨.array, [11]⟩]], some .value⟩ := by decide +kernel
+
+-- a function with state (`countingOn`: the k-th call, failing ones counted, adds 100·k to every element): the call on
+-- [2,3] is call 1 and raises; the call on [4,5] is call 2 — its rows come out as 204/214, 205/215 behind the carried rows
+example : treeFnGenS true 2 3 2 2
+      (countingOn (fun b => (b.headD default).rows.contains 2) (fun k r => [r.map (· + 100 * k)]) [.list, .array]) 0
+      sampleStream =
+    ⟨[[⟨.list, [0, 1, 204]⟩, ⟨.array, [10, 11, 214]⟩], [⟨.list, [205]⟩, ⟨.array, [215]⟩]], none⟩ := by
+  decide +kernel
 
 end MlModel.C19
